@@ -18,7 +18,7 @@ EXPL = ('(R-POLY/tables) the set-up code of the interleaved w-NAF multiplication
 def run(ctx):
     ctx.explanation = EXPL
     ctx.level = 'other'
-    ctx.assumptions = ['the w-NAF recoding is decided as an inductive step (one iteration from an arbitrary state) plus the statements before the loop; the conclusion sum wnaf[j] 2^j == scalar is the telescoping argument stated in the rule, the number of iterations (at most bits+1) is covered by R-BOUNDS / R-CARRY only; the size of the GLV halves (a performance matter: both are recoded at 256 bits) is not decided; on 32-bit-word configurations the bit-serial division inside PowersOfX::decompose is not decided; psi(P) = [x]P on G2 is assumed']
+    ctx.assumptions = ['the w-NAF recoding is decided as an inductive step (one iteration from an arbitrary state) plus the statements before the loop; the conclusion sum wnaf[j] 2^j == scalar is the telescoping argument stated in the rule, the number of iterations (at most bits+1) is covered by R-BOUNDS / R-CARRY only; the size of the GLV halves (a performance matter: both are recoded at 256 bits) is not decided; psi(P) = [x]P on G2 is assumed']
     for cfg, prog in ctx.programs().items():
         n = guards.rule_defout(ctx, cfg, prog, name_filter=lambda f: 'Fq12' not in f['qn'] and 'miller' not in f['qn'])
         ctx.floor('R-DEFOUT accumulation functions[%s]' % cfg, n, 4)
